@@ -1569,8 +1569,8 @@ def run(ctx):
         four = hl.int32(4)
         X = four + four                      # contains `four` twice: a binding site whenever X is the root of a block
         c = hl.bool(True)
-        arr = hl.array([1, 2, 3])
-        inner = hl.array([10, 20])
+        arr = hl.array([hl.int32(1), hl.int32(2), hl.int32(3)])      # (expressions, so MakeArray rather than an encoded literal)
+        inner = hl.array([hl.int32(10), hl.int32(20)])
         t = hl.utils.range_table(4)
         Xr = t.idx + t.idx
 
@@ -1584,7 +1584,7 @@ def run(ctx):
 
         return [
             ('shared node is lifted and is also the root of an If branch at the same depth', lambda: (X + X) + hl.if_else(c, X, 0)),
-            ('... in a table row', lambda: t.annotate(y=(Xr + Xr) + hl.if_else(t.idx > 1, Xr, 0)).aggregate(hl.agg.collect(t.idx), _localize=False)),
+            ('... in a table row', lambda: (lambda t2: t2.aggregate(hl.agg.collect(t2.y), _localize=False))(t.annotate(y=(Xr + Xr) + hl.if_else(t.idx > 1, Xr, 0)))),
             ('second use of a lifted node at the depth of its block-root occurrence, then a sibling If', lambda: hl.array([(X * 2) * 3, X + 1, hl.if_else(c, four, 0), hl.if_else(c, X, 0)])),
             ('shared node under both branches', lambda: hl.if_else(c, X, X) + hl.if_else(c, X + X, 0)),
             ('nested conditionals share a node', lambda: hl.if_else(c, hl.if_else(c, X * X, 1) + X * X, 0)),
@@ -1595,7 +1595,7 @@ def run(ctx):
             ('explode variable and element shared', lambda: inner.aggregate(lambda e: hl.agg.explode(lambda v: hl.agg.sum((v + e) * (v + e)), hl.range(e % 3)))),
             ('fold accumulator expression shared', lambda: hl.fold(lambda acc, e: (acc + e) * (acc + e), 0, arr)),
             ('bind value shared with body', lambda: hl.bind(lambda y: y + X * y, X)),
-            ('scan and row expression shared in annotate', lambda: t.annotate(s=hl.scan.sum(Xr) + hl.int64(Xr), u=hl.scan.count() + hl.scan.sum(Xr)).aggregate(hl.agg.sum(t.idx), _localize=False)),
+            ('scan and row expression shared in annotate', lambda: (lambda t2: t2.aggregate(hl.agg.sum(t2.s + t2.u), _localize=False))(t.annotate(s=hl.scan.sum(Xr) + hl.int64(Xr), u=hl.scan.count() + hl.scan.sum(Xr)))),
         ]
 
     if ctx.shard == 0:
@@ -1630,5 +1630,40 @@ def run(ctx):
 
 
 # -------------------------------------------------------------------------------------------------
-# Breaks tried (scratch worktree, quick tier) -- see bottom of file after validation
+# Validation record (scratch worktree /tmp/scratch-ir = HEAD + the proposed fixes below, quick tier, seed 0;
+# VERIF_REPO=/tmp/scratch-ir VERIF_EVIDENCE_DIR=/tmp/ev-ir ./check C35; worktree removed afterwards)
+#
+# Genuine defects found on the UNCHANGED tree (every seed 0..4, both tiers; also pinned in phase `corpus`):
+#   cse/print-pass-assertion-lifted-node-is-also-a-binding-site
+#       four = hl.int32(4); X = four + four; (X + X) + hl.if_else(hl.bool(True), X, 0)
+#       -> CSERenderer raises AssertionError (`assert not frame.insert_lets`, CSEPrintPass.__call__).  `binding_sites` is keyed by
+#       id(node) only; X is lifted in the outer block and is also the root of the If branch (a binding site) at the SAME depth.
+#       Realistic form: x = t.idx + t.idx; t.annotate(y=(x + x) + hl.if_else(t.idx > 1, x, 0)).
+#   cse/lifted-name-used-outside-its-binding   (same root cause, other manifestation: silently ill-scoped text)
+#       hl.array([(X * 2) * 3, X + 1, hl.if_else(c, four, 0), hl.if_else(c, X, 0)])
+#       -> "... (If (Ref __cse_3) (Ref __cse_4) (I32 0)) (If (Ref __cse_3) (Let eval __cse_4 (I32 4) ...". make() registers a
+#       bindings_stack frame for the already-visited lifted X (`continue` path) that is never removed; the sibling branch root
+#       `four` is then "lifted" into that stale frame whose lets are never emitted.
+#       fix for both: /verif/proposed_fixes/C35-print-pass-assertion-lifted-node-is-also-a-binding-site.diff
+#   cse/local-aggregation-lifted-above-binder-of-its-result-variable
+#       arr.map(lambda x: (lambda s: s + s)(inner.aggregate(lambda e: hl.agg.sum(e) + hl.int64(x))))
+#       -> "(Let eval __cse_1 (StreamAgg ... (Ref __uid_3) ...) ... (StreamMap __uid_3 ...": StreamAgg.free_vars (and
+#       StreamAggScan.free_vars) omit the eval-scope free variables of the body, so the analysis pass believes the node closed.
+#       fix: /verif/proposed_fixes/C35-local-aggregation-lifted-above-binder-of-its-result-variable.diff
+#   With both fixes applied: HELD on seeds 0..4, quick and thorough.
+#
+# Breaks tried on top of the fixed tree, one at a time:
+#   A1  binders recorded one level higher than they are, both passes (child_context(..., depth - 1)): a binding that uses a
+#       lambda variable is lifted above the lambda                                  -> CAUGHT  cse/binding-lifted-above-binder (exit 1)
+#   A2  agg-scope boundary ignored (`uses_agg_context` branch disabled in both passes)  -> CAUGHT  cse/lifted-name-used-outside-its-binding,
+#       cse/binding-lifted-above-binder (exit 1)
+#   A6  print pass writes `(Let eval` for a binding the analysis placed in the agg scope -> CAUGHT  (same keys as A2) (exit 1)
+#   A10 (own, subtle) two consecutive bindings get the same __cse name: scoping legal, shadowing changes values
+#                                                                                   -> CAUGHT  cse/value-differs (exit 1)
+#   A11 (own, subtle) If.renderable_new_block -> False: shared subexpressions hoisted out of conditional branches
+#       -> MISSED by the first version (total operator semantics: values equal); the branch check in ScopeChecker was added
+#       because of it                                                               -> CAUGHT  cse/binding-hoisted-out-of-conditional-branch (exit 1)
+#   A12 analysis pass only registers bindings one level too high (print pass unchanged) -> HELD (exit 0) and rightly so: the print
+#       pass then simply finds fewer lifts; the emitted text is still well scoped and equal in value (less sharing, same meaning)
+#   unfixed HEAD itself                                                              -> CAUGHT  (the three keys above)
 # -------------------------------------------------------------------------------------------------
